@@ -5,17 +5,17 @@ CONSTANTS
   M = 2
   P = 2
   Vals = {0, 1}
-  MaxLen = 2
+  MaxLen = 3
   MaskLen = 2
   Tols <- TolsW
   Gens <- Gens5
   Targets <- NoTargets
   MTols <- Tol1h
-  MGens = {1}
+  MGens = {0, 1, 2}
   MTargets <- NoTargets
   PrsCat <- NoSets
   IdxCat <- NoSets
-  MaxMask = 2
+  MaxMask = 3
   Part <- NoPart
 INVARIANT FixedPoint
 INVARIANT ReportIsDetectMinusMask
